@@ -47,6 +47,8 @@ def gen_leaf(rng, common, kinds, leaf_kind=None, small=False):
             shape = ()
         s = gen.gen_const_struct(rng, shape=shape, kind=kind)
     s["as"] = "poly_T" if lk == "poly" and len(s["shape"]) >= 2 and rng.random() < .15 else lk
+    if lk == "list" and kind in ("float", "complex") and rng.random() < .6:
+        s["as"] = "list_mixed"
     if s["as"] == "poly" and len(s["names"]) >= 2 and rng.random() < .15:
         s["as"] = "poly_perm"     # same polynomial, names declared in another order
     return s
@@ -307,6 +309,55 @@ def run_powarr(ctx, cases, monitor):
             ctx.nontrivial_add(json.dumps(["powarr", c["a"]["terms"], c["ks"], c["kshape"]]))
 
 
+SHAPE_FAMILIES = {1: [[], [1], [1, 1]], 2: [[2], [1, 2], [2, 1]], 4: [[4], [2, 2], [1, 4], [4, 1]],
+                  6: [[6], [2, 3], [3, 2], [1, 6], [1, 2, 3]]}
+
+
+def hist_impl(case):
+    obj = gen.materialize(case["env"][0], "poly")
+    k = case["tree"][2]
+    kobj = {"int": k, "int64": numpy.int64(k), "0d": numpy.array(k), "float": float(k)}[case["kas"]]
+    try:
+        res = obj ** kobj
+        impl = any_to_struct(res)
+        impl["status"] = "ok"
+        # the caller now owns the result: scribbling over it must not reach any later result
+        if isinstance(res, numpoly.ndpoly) and res.flags.writeable:
+            for key in res.keys:
+                res.values[key] = 77
+    except Exception as err:  # noqa: BLE001
+        impl = {"status": "err", "kind": err_kind(err), "msg": f"{type(err).__name__}: {err}"[:200]}
+    return impl
+
+
+def run_histories(ctx, rng, n):
+    """the same elements laid out in several shapes, raised to the same power one after the other in one process, with
+    every earlier result overwritten by the caller in between: a result depends on the operands of *this* call only
+    (seeded change C01-7: a memo of powers keyed without the shape)"""
+    cases = []
+    for i in range(n):
+        size = int(gen.choice(rng, [1, 2, 4, 6]))
+        base = gen.gen_struct(rng, shape=(size,), kind=gen.choice(rng, ["int", "float"], p=[.8, .2]),
+                              nterms=int(rng.integers(1, 4)), maxexp=2, lim=3)
+        k = int(rng.integers(0, 4))
+        for j, shape in enumerate(SHAPE_FAMILIES[size]):
+            leaf = dict(base, shape=list(shape), **{"as": "poly"})
+            cases.append({"id": f"hist{i}.{j}", "prop": "C01", "op": "expr", "opts": DEFAULT_OPTS, "env": [leaf],
+                          "tree": ["pow", ["leaf", 0], k], "depth": 1, "history": i,
+                          "kas": gen.choice(rng, ["int", "int64", "0d", "float"])})
+    models = run_driver([driver_case(c) for c in cases])
+    for case, model in zip(cases, models):
+        ctx.evaluations += 1
+        ctx.count("op=pow/history")
+        impl = hist_impl(case)
+        r = compare(case, model, impl)
+        if r:
+            ctx.fail(case, f"same elements in shape {case['env'][0]['shape']} after other layouts (exponent given as {case['kas']}): " + r[0],
+                     r[1] + ["history"])
+        if model.get("status") == "ok" and len(den_of_struct(model)) >= 2:
+            ctx.nontrivial_add(json.dumps(["hist", case["env"][0]["terms"], case["env"][0]["shape"], k]))
+
+
 def corpus_cases():
     """witnesses kept from earlier findings (run first)"""
     one = lambda names, shape, terms, kind="int", as_="poly": {
@@ -326,6 +377,15 @@ def corpus_cases():
     e = one([2], [], [[[1], [2]]])
     cases.append({"id": "corpus-q10", "prop": "C01", "op": "expr", "opts": DEFAULT_OPTS, "env": [d, e],
                   "tree": ["mul", ["leaf", 0], ["leaf", 1]], "depth": 1})
+    # nested-list operands whose rows have different numeric types, the narrowest first (seeded change C01-8)
+    poly = one([0, 1], [2, 2], [[[1, 0], [1, 0, 2, 0]], [[0, 1], [0, 1, 0, 3]], [[0, 0], [1, 1, 1, 1]]])
+    for k, (kind, col) in enumerate([("float", [1, 2, [1, 2], 3]), ("float", [0, 1, 2, [-3, 4]]), ("complex", [1, 0, [0, 1, 1, 1], 2]),
+                                     ("float", [2, [1, 4], 1, 1])]):
+        lst = {"names": [0], "shape": [2, 2], "dtype": gen.KIND_DTYPE[kind], "kind": kind, "terms": [[[0], col]], "as": "list_mixed"}
+        for op in ("mul", "add", "sub"):
+            for order in ((0, 1), (1, 0)):
+                cases.append({"id": f"corpus-mixedrows-{k}-{op}-{order[0]}", "prop": "C01", "op": "expr", "opts": DEFAULT_OPTS,
+                              "env": [lst, poly], "tree": [op, ["leaf", order[0]], ["leaf", order[1]]], "depth": 1})
     return cases
 
 
@@ -348,12 +408,24 @@ def run(ctx):
     run_powarr(ctx, [gen_powarr(prng, i) for i in range(150 if ctx.quick else 2500)] + [
         {"id": "corpus-D1", "prop": "C01", "op": "powarr", "opts": DEFAULT_OPTS, "kas": "ndarray", "kshape": [2, 1, 2], "ks": [1, 2, 0, 3],
          "a": {"names": [0], "shape": [2, 1, 2], "dtype": "int64", "kind": "int", "as": "poly", "terms": [[[1], [1, 2, 3, 4]], [[0], [1, 0, 1, 0]]]}}], monitor)
+    run_histories(ctx, ctx.rng("histories"), 60 if ctx.quick else 1500)
     ctx.extra["argument_monitor"] = {"calls": monitor.calls, "mutations": monitor.events[:5]}
     for ev in monitor.events[:3]:
         ctx.notes.append(f"argument mutated (C17 monitor): {ev}")
 
 
 def replay(ctx, case):
+    if "history" in case:
+        # the failure needs the earlier calls of its history: replay the whole family
+        fam = []
+        for j, shape in enumerate(SHAPE_FAMILIES[max(1, int(numpy.prod(case["env"][0]["shape"], dtype=int)))]):
+            fam.append(dict(case, env=[dict(case["env"][0], shape=list(shape))]))
+        models = run_driver([driver_case(c) for c in fam])
+        for c, model in zip(fam, models):
+            res = compare(c, model, hist_impl(c))
+            if res:
+                return res[0]
+        return None
     if case.get("op") == "powarr":
         n = len(ctx.failures)
         run_powarr(ctx, [case], Monitor())
